@@ -138,7 +138,9 @@ int32_t jls_track_repair_pointers(struct jls_core_track_s * track) {
                 index_chunk = index_chunk_next;
                 summary_chunk = core->chunk_cur;
                 offset = index_chunk.hdr.item_next;  // next index
-                offset_descend = offset_descend_next;
+                if (offset_descend_next) {  // else every block is omitted: keep the last block of an earlier index
+                    offset_descend = offset_descend_next;
+                }
                 track->index_head[level].offset = index_chunk.offset;
                 track->summary_head[level].offset = summary_chunk.offset;
             }
